@@ -131,6 +131,7 @@ func main() {
 	genUrlTables()
 	genRequireGlue()
 	genBufferMethods()
+	genBufferCodecs()
 }
 
 // exprString / stmtsString: canonical whitespace-free rendering of AST fragments used for shape matching.
